@@ -1519,13 +1519,15 @@ class ContactHandler(Messenger, dbus.service.Object):
     @dbus.service.method(DBUS_IFACE, in_signature='ss', out_signature='')
     def recv_bundle_pop_file(self, bid, filepath):
         bid = int(bid)
-        item = self._rx_map.pop(bid)
-        self._rx_bundles.remove(item)
+        item = self._rx_map[bid]
         item.file.seek(0)
 
         import shutil
-        out_file = open(filepath, 'wb')
-        shutil.copyfileobj(item.file, out_file)
+        with open(filepath, 'wb') as out_file:
+            shutil.copyfileobj(item.file, out_file)
+        # only a bundle which was written out is taken off the queue
+        self._rx_map.pop(bid)
+        self._rx_bundles.remove(item)
 
     def send_buffer_decreased(self, buf_use):
         if self._send_segment_size is None:
